@@ -314,7 +314,11 @@ def rule_sweep_memory(ctx, sites, rule="sweep-memory"):
         loops = [n for n in _own_walk(f.node) if isinstance(n, (ast.For, ast.While))]
         hit = None
         for lp in loops:
-            calls = [c for c in _own_walk(lp) if isinstance(c, ast.Call) and (getattr(c.func, "attr", None) or getattr(c.func, "id", None)) in callees]
+            if callees is None:
+                # the sweep is the call that receives the skip keyword (its callee may be a local holding a function)
+                calls = [c for c in _own_walk(lp) if isinstance(c, ast.Call) and any(kw.arg == skip_kw for kw in c.keywords)]
+            else:
+                calls = [c for c in _own_walk(lp) if isinstance(c, ast.Call) and (getattr(c.func, "attr", None) or getattr(c.func, "id", None)) in callees]
             if calls:
                 hit = (lp, calls)
         if hit is None:
